@@ -99,15 +99,15 @@ Proof. exact generate_n0. Qed.
 
 (* ---- (4) intersection ---- *)
 
-(* any two choice objects of the same positive degree n whose stored vectors have n non-empty entries *)
+(* any two choice objects of the same degree n (0 included) whose stored vectors have n non-empty entries *)
 Theorem C04_intersection_objects : forall dom n c1 c2,
-  0 < n -> wf_choices dom n c1 -> wf_choices dom n c2 ->
+  wf_choices dom n c1 -> wf_choices dom n c2 ->
   exists c, intersection c1 c2 = Ok c /\ wf_choices dom n c /\
     forall v, covered c.(valid) v <-> covered c1.(valid) v /\ covered c2.(valid) v.
 Proof. exact intersection_spec. Qed.
 
 Theorem C04_intersection : forall ord1 ord2 pick1 pick2 fuel1 fuel2 dom n S1 S2 c1 c2,
-  ord_ok ord1 -> ord_ok ord2 -> pick_ok pick1 -> pick_ok pick2 -> NoDup dom -> dom <> [] -> 0 < n ->
+  ord_ok ord1 -> ord_ok ord2 -> pick_ok pick1 -> pick_ok pick2 -> NoDup dom -> dom <> [] ->
   wf_seqs dom n S1 -> wf_seqs dom n S2 ->
   generate ord1 pick1 fuel1 dom n S1 = Ok c1 -> generate ord2 pick2 fuel2 dom n S2 = Ok c2 ->
   exists c, intersection c1 c2 = Ok c /\
@@ -122,15 +122,22 @@ Theorem C04_intersection : forall ord1 ord2 pick1 pick2 fuel1 fuel2 dom n S1 S2 
     end.
 Proof. exact generate_intersection. Qed.
 
-(* n = 0 is the one vector length where the intersection clause FAILS (model and real code alike):
-   `... for j in sub if j` (choice.py:558) drops the empty tuple, i.e. the only vector of dom^0.
-   Hence the hypothesis 0 < n above. *)
-Theorem C04_intersection_n0_refuted :
+(* n = 0 made explicit (choice.py:558 after fix df06735, `... for j in sub if j is not None`) *)
+Theorem C04_intersection_n0 :
   exists c1 c,
     generate ord_id pick_head 5 [0; 1; 2] 0 [] = Ok c1 /\ is_valid c1 [] = true /\
-    intersection c1 c1 = Ok c /\ is_valid c [] = false /\ all c = [] /\ infinite c = false /\
+    intersection c1 c1 = Ok c /\ is_valid c [] = true /\ all c = [[]] /\ infinite c = false /\
+    first c = Ok (Some []).
+Proof. exact intersection_n0_ok. Qed.
+
+(* regression: the filter as it was BEFORE df06735 (`... if j`, model [intersection_truthy]) dropped the
+   empty tuple, i.e. the only vector of dom^0: the clause failed at n = 0 *)
+Theorem C04_intersection_old_filter_n0_refuted :
+  exists c1 c,
+    generate ord_id pick_head 5 [0; 1; 2] 0 [] = Ok c1 /\ is_valid c1 [] = true /\
+    intersection_truthy c1 c1 = Ok c /\ is_valid c [] = false /\ all c = [] /\ infinite c = false /\
     first c = Err IndexError.
-Proof. exact intersection_n0_refuted. Qed.
+Proof. exact intersection_truthy_n0_refuted. Qed.
 
 Print Assumptions C04_reduce_preserves.
 Print Assumptions C04_reduce_end_preserves.
@@ -147,4 +154,5 @@ Print Assumptions C04_infinite.
 Print Assumptions C04_n0.
 Print Assumptions C04_intersection_objects.
 Print Assumptions C04_intersection.
-Print Assumptions C04_intersection_n0_refuted.
+Print Assumptions C04_intersection_n0.
+Print Assumptions C04_intersection_old_filter_n0_refuted.
